@@ -93,6 +93,7 @@ type Replay struct {
 
 var noEvidence bool
 var selftestInfo map[string]any
+var lateSelftest func() string
 
 var (
 	verifDir = "/verif"
@@ -651,8 +652,9 @@ func runCheck(prop, tier string, base uint64, plan []planItem, runsOverride, nw 
 
 	infra = append(infra, ag.infra...)
 	// determinism self-test on this property's scenarios (same binary, same tree): every
-	// seed in five process/GOMAXPROCS modes must give the same journal hash and verdict
-	if workerPlain != "" && len(infra) == 0 && os.Getenv("VCHECK_NO_SELFTEST") == "" {
+	// seed in five process/GOMAXPROCS modes must give the same journal hash and verdict.
+	// report() runs it when no unlisted violation was found (a violation is reported as such).
+	if workerPlain != "" && os.Getenv("VCHECK_NO_SELFTEST") == "" {
 		var items []planItem
 		for _, it := range plan {
 			if !it.Race && (onlyScen == "" || it.Scenario == onlyScen) {
@@ -663,10 +665,13 @@ func runCheck(prop, tier string, base uint64, plan []planItem, runsOverride, nw 
 		if tier == "thorough" {
 			n = 40
 		}
-		pairs, bad := selftestItems(workerPlain, items, prop, base+17, n, nw, false)
-		selftestInfo = map[string]any{"seeds_per_scenario": n, "pairs": pairs, "modes": []string{"batch worker GOMAXPROCS=1", "batch worker GOMAXPROCS=4", "batch worker GOMAXPROCS=16", "fresh process per seed GOMAXPROCS=16", "fresh process per seed GOMAXPROCS=1"}, "mismatches": bad}
-		if bad > 0 {
-			infra = append(infra, fmt.Sprintf("determinism self-test: %d mismatches over %d (scenario, seed) pairs", bad, pairs))
+		lateSelftest = func() string {
+			pairs, bad := selftestItems(workerPlain, items, prop, base+17, n, nw, false)
+			selftestInfo = map[string]any{"seeds_per_scenario": n, "pairs": pairs, "modes": []string{"batch worker GOMAXPROCS=1", "batch worker GOMAXPROCS=4", "batch worker GOMAXPROCS=16", "fresh process per seed GOMAXPROCS=16", "fresh process per seed GOMAXPROCS=1"}, "mismatches": bad}
+			if bad > 0 {
+				return fmt.Sprintf("determinism self-test: %d mismatches over %d (scenario, seed) pairs", bad, pairs)
+			}
+			return ""
 		}
 	}
 	return report(prop, tier, base, t0, ag, infra, total, workerPlain, workerRace, plan, noShrink, genInfo)
@@ -724,6 +729,11 @@ func report(prop, tier string, base uint64, t0 time.Time, ag *agg, infra []strin
 		}
 		if !matched {
 			fails = append(fails, fail{r, class})
+		}
+	}
+	if len(infra) == 0 && len(fails) == 0 && lateSelftest != nil {
+		if msg := lateSelftest(); msg != "" {
+			infra = append(infra, msg)
 		}
 	}
 	if len(infra) > 0 {
